@@ -104,9 +104,8 @@ def _one(args):
         if kind == "fault":
             ctx.ALIGN_MAX = 10 ** 6     # the catalogue tests the rules themselves; the alignment gate (report.Ctx.bad) is tested by its own entries
         mod.run(ctx)
-        if kind != "fault":
-            from .cli import new_guard_rule
-            new_guard_rule(ctx, prop)
+        from .cli import new_guard_rule
+        new_guard_rule(ctx, prop)
     except Exception as e:  # a variant that breaks the analysis is a failure of the checker
         if kind == "fault" and v.get("rule") == "ANALYSIS-ERROR":
             return (kind, v["name"], "ok", "analysis error as expected")
